@@ -70,7 +70,7 @@ type Case struct {
 	DedupFactor uint32   `json:"dedup_factor"` // 0 = MaxUint32 (production)
 	CacheMB     int      `json:"cache_mb"`
 	TTL         uint16   `json:"ttl"`
-	Misaligned  bool     `json:"misaligned"` // informational stream: prune ranges not multiples of the factor
+	Misaligned  bool     `json:"misaligned"`    // informational stream: prune ranges not multiples of the factor
 	Tie         bool     `json:"tie,omitempty"` // store correspondence: recorded puts / deletes replayed on the store model
 	Genesis     []Op     `json:"genesis"`
 	Steps       []Step   `json:"steps"`
@@ -137,8 +137,8 @@ type blockRec struct {
 	conflicts uint32
 	parent    int
 	root      trie.Root
-	atCommit  string   // state content read right after commit
-	index     []string // expected block-number index (ids of the ancestors and itself)
+	atCommit  string                  // state content read right after commit
+	index     []string                // expected block-number index (ids of the ancestors and itself)
 	stor      map[string]trie.Version // non-empty storage tries of the committed state: trie name -> root version
 	accLeaves string                  // leaves of the account trie read right after commit
 }
@@ -881,6 +881,13 @@ func genCase(r *hx.Rand, idx int, thorough bool) *Case {
 	if shared {
 		na, nk = r.Range(2, 4), r.Range(2, 3)
 	}
+	// a few trees per run: the first block creates the storage of more than 256 fresh accounts in one Stage
+	// (storage-trie creation counter beyond one byte); the ordinary traffic stays on the first ten accounts
+	wide := idx%250 == 12
+	naOps := na
+	if wide {
+		naOps, na, nk = 10, r.Range(270, 330), r.Range(2, 3)
+	}
 	pick := func(n int) []byte {
 		for {
 			b := r.Bytes(n)
@@ -907,14 +914,17 @@ func genCase(r *hx.Rand, idx int, thorough bool) *Case {
 	c.Tie = idx%8 == 3 // store correspondence (smaller trees: the list-based store model is quadratic)
 	destroyBias = shared
 	defer func() { destroyBias = false }()
-	c.Genesis = genOps(r, na, nk, 0, r.Range(3, 30))
-	hot := min(r.Range(1, 3), na)
+	c.Genesis = genOps(r, naOps, nk, 0, r.Range(3, 30))
+	hot := min(r.Range(1, 3), naOps)
 	nblocks := r.Range(10, 60)
 	if thorough {
 		nblocks = r.Range(30, 150)
 	}
 	if c.Tie {
 		nblocks = r.Range(10, 30)
+	}
+	if wide {
+		nblocks = r.Range(6, 10) // every read visits every storage trie of every block
 	}
 	f := c.HistFactor
 	mainHead, mainNum := 0, uint32(0)
@@ -923,6 +933,17 @@ func genCase(r *hx.Rand, idx int, thorough bool) *Case {
 	isMain := []bool{true}
 	branch := []uint32{0} // height of the main-chain block a block branches from (its own height for main blocks)
 	base := uint32(0)
+	if wide {
+		var ops []Op
+		for a := naOps; a < na; a++ {
+			ops = append(ops, Op{K: "bal", A: a, V: hex.EncodeToString(r.Bytes(r.Range(1, 6)))},
+				Op{K: "sto", A: a, S: r.Intn(nk), V: hex.EncodeToString(append(make([]byte, 24), r.Bytes(8)...))})
+		}
+		c.Steps = append(c.Steps, Step{K: "block", Parent: 0, Main: true, Ops: ops}, Step{K: "restart"}, Step{K: "read"})
+		nb, mainHead, mainNum = 1, 1, 1
+		blockNum, isMain, branch = append(blockNum, 1), append(isMain, true), append(branch, 1)
+	}
+	na = naOps
 	for nb < nblocks {
 		switch x := r.Intn(100); {
 		case x < 70: // extend the main chain
